@@ -229,6 +229,11 @@ def check_invariants(w: World, ctx, where):
         if not extra <= pending_ids:
             return (f"{where}: on {node} physical qubits {sorted(extra - pending_ids)} are marked in use but mapped by no virtual qubit "
                     f"(pending response ids {sorted(pending_ids)})")
+        # the backend's qubit memory (what the executor's reserve / clear hooks were told) == the physical qubits in use
+        held = {l[1] for l in ex.sv.labels if l[0] == "p"}
+        if held != used - pending_ids:
+            return (f"{where}: on {node} the quantum memory holds physical qubits {sorted(held)} but the executor has {sorted(used - pending_ids)} mapped "
+                    f"(a hook was called for the wrong position)")
         # applications known to the executor == applications the host registered
         for store_name, store in (("unit modules", ex._qubit_unit_modules), ("registers", ex._registers), ("arrays", ex._app_arrays),
                                   ("shared memories", ex._shared_memories)):
